@@ -98,6 +98,8 @@ kani("ans_io::batch_reverse_ans_u8_u16_p3", ["C01"], kind="bounded", bound="2 sy
      fns=[ST + "encode_symbols_reverse", ST + "try_encode_symbols_reverse", ST + "encode_iid_symbols_reverse"])
 
 # ---------------- Verus unit: ANS (stack.rs)
+kani("ans_io::views_u8_u16", ["C08", "C01", "C07"], fns=[ST + "as_decoder", ST + "as_seekable_decoder", ST + "into_decoder", ST + "from_reversed_compressed"],
+     text="as_decoder / as_seekable_decoder show exactly the encoder's (words, state) and leave it untouched; into_decoder keeps them; from_reversed_compressed(reversed export) is the coder again")
 _ANS_IMPL_ENC = "Encode<PRECISION>\n    for AnsCoder<Word, State, Backend>"
 _ANS_IMPL_DEC = "Decode<PRECISION>\n    for AnsCoder<Word, State, Backend>"
 verus_unit(
